@@ -416,6 +416,7 @@ class SpectrumArithScenario(Scenario):
     quick_runs = 3000
     thorough_runs = 200000
     audit_every = 16
+    mem_gb = 2.5
     rule = ('each run = 1-3 callers over a shared pool of 2-5 spectra (identical, nested, overlapping and disjoint ranges; uniform and '
             'non-uniform grids; unitless and flux-density values; all four wavelength units): histories of binary operators (method and '
             'dunder forms; sampling min/left/right/float; linear/quadratic/cubic; fill values), scalar / vector / refused operands, queries, '
